@@ -324,6 +324,40 @@ def r2_breakers(ctx):
         if dq:
             ctx.check(all(any(x[0] == 'field' and x[2] == 'channel' for x in walk(g.expr_operand(s.args[0], s.b, 'T'))) for s in dq), 'dissolve-queue-of-connection-channel',
                       "dissolve_paths releases the packets queued in the taken connection's channel", dq[0].where())
+            # ... of EVERY taken connection that has one: inside the per-slot loop the release depends on nothing but "the slot was
+            # occupied" and "the connection has a channel" (queued packets hold the connection, the connection holds the channel: a
+            # backlog that is skipped — because the peer's owner is gone, say — keeps that cycle and its message bodies alive)
+            for s_ in dq:
+                extra = []
+                for (sb, cond, v) in g.guards(s_.b):
+                    if not g.loops_containing(sb):
+                        continue
+                    def _outside_next(t):
+                        # the iterator expression under a `next(..)` is the slot traversal ('dissolve-takes-every-slot' decides that it is
+                        # exhaustive); only what is tested on the yielded item is looked at here
+                        if isinstance(t, tuple):
+                            if t and t[0] == 'call' and str(t[1]).endswith(('::next', '::next_back')):
+                                yield ('call', t[1], ())
+                                return
+                            yield t
+                            for c_ in t:
+                                if isinstance(c_, tuple):
+                                    yield from _outside_next(c_)
+                    full = [x for x in walk(cond)]
+                    txt = [x for x in _outside_next(cond) if isinstance(x, tuple) and x and isinstance(x[0], str)]
+                    if any(x[0] == 'call' and str(x[1]).endswith(('Option::take', 'mem::take', 'mem::replace')) for x in full) and not any(x[0] == 'call' and str(x[1]).endswith(('Option::take', 'mem::take', 'mem::replace')) for x in txt):
+                        txt.append(('call', 'std::option::Option::take', ()))
+                    is_next = any(x[0] == 'call' and str(x[1]).endswith(('::next', '::next_back')) for x in txt) and not any(x[0] == 'call' and str(x[1]).endswith('::take') for x in txt) \
+                        and not any(x[0] == 'field' and len(x) > 2 and x[2] == 'channel' for x in txt)
+                    is_slot = any(x[0] == 'call' and str(x[1]).endswith(('Option::take', 'mem::take', 'mem::replace')) for x in txt)
+                    is_chan = any(x[0] == 'field' and len(x) > 2 and x[2] == 'channel' for x in txt)
+                    other = [str(x[1]) for x in txt if x[0] == 'call' and not str(x[1]).endswith(('::next', '::next_back', 'Option::take', 'mem::take', 'mem::replace', '::into_iter', '::iter_mut', '::iter',
+                                                                                                   '::deref_mut', '::deref', '::try_lock', '::lock', '::as_mut', '::as_ref', '::is_some', '::is_none', '::unwrap', '::as_deref', '::as_deref_mut', '::enumerate', '::flatten', '::get_mut', '::index_mut', '::len'))]
+                    if not (is_next or is_slot or is_chan) or other:
+                        extra.append(show(cond)[:140])
+                ctx.check(not extra, 'dissolve-queue-unconditional',
+                          "dissolve_paths releases the queued packets of every taken connection that has a channel: inside the slot loop the release is "
+                          "guarded by nothing but the slot being occupied and the channel being present", s_.where(), extra[:2])
         # early exit only when the lock is held by an outer frame of the same recursion
     h = P.fns.get('des::net::channel::Channel::dissolve_queue')
     if h:
